@@ -21,6 +21,7 @@ from __future__ import annotations
 import ast
 import re
 
+from pv.q import text as qtext
 from pv.model import AnalysisError, walk_no_nested, UNKNOWN
 from pv.handlers import HandlerTable
 from pv.identify import fold_regex
@@ -186,11 +187,11 @@ def rule_b(model, rep, table):
         pr = T.match_tokens(pat, flags, toks, max_group_reps=4)
         rep.check(pr is not None, R, site(pu.name, "PHC_REGEX") + " <- passlib bcrypt_sha256 v2", f"{T.show(toks)!r} vs {pat[:60]!r}...", "the PHC regex accepts the passlib bcrypt-sha256 v2 layout")
     hf = model.func(LB, "BcryptSHA256Hasher.hash")
-    t = ast.unparse(hf)
+    t = qtext(hf)
     rep.check("id='bcrypt-sha256', version_=2, type=info.prefix, rounds=info.rounds, hash=info.hash, salt=info.salt" in t, R, site(LB, "BcryptSHA256Hasher.hash"), "record fields from the inner bcrypt string",
               "bcrypt-sha256 record: v=2, t=<bcrypt ident>, r=<cost>, salt and digest of the inner bcrypt hash")
     vf = model.func(LB, "BcryptSHA256Hasher.verify")
-    rep.check("BcryptHashInfo(prefix=info.type, salt=info.salt, hash=info.hash, rounds=info.rounds).as_str().encode()" in ast.unparse(vf), R, site(LB, "BcryptSHA256Hasher.verify"), "inner bcrypt string rebuilt field by field",
+    rep.check("BcryptHashInfo(prefix=info.type, salt=info.salt, hash=info.hash, rounds=info.rounds).as_str().encode()" in qtext(vf), R, site(LB, "BcryptSHA256Hasher.verify"), "inner bcrypt string rebuilt field by field",
               "verify() rebuilds the inner bcrypt string from the same four fields")
     # identify: languages pairwise disjoint
     RD = "C20.b-identify-exact"
@@ -256,7 +257,7 @@ def rule_c_tables(model, rep):
     rep.check(returns(fn)[-1:] == ["h64_engine.encode_transposed_bytes(dc, transpose_map).decode('ascii')"], R, site(LS, "_sha_crypt"), "; ".join(returns(fn)[-1:]), "libpass encodes the final digest with the hash64 engine through the transpose map")
     pf = model.func(H + "sha2_crypt", "_raw_sha2_crypt")
     rep.check(returns(pf)[-1:] == ["h64.encode_transposed_bytes(dc, transpose_map).decode('ascii')"], R, site(H + "sha2_crypt", "_raw_sha2_crypt"), "; ".join(returns(pf)[-1:]), "passlib encodes the final digest with h64 through the transpose map")
-    rep.check("transpose_map = _512_transpose_map" in ast.unparse(pf) and "transpose_map = _256_transpose_map" in ast.unparse(pf), R, site(H + "sha2_crypt", "_raw_sha2_crypt"), "map chosen by use_512", "passlib selects the map by variant")
+    rep.check("transpose_map = _512_transpose_map" in qtext(pf) and "transpose_map = _256_transpose_map" in qtext(pf), R, site(H + "sha2_crypt", "_raw_sha2_crypt"), "map chosen by use_512", "passlib selects the map by variant")
     L = "libpass._utils.binary"
     lb, pb = model.unit(L), model.unit("passlib.utils.binary")
     a, b = model.fold(lb, ast.Name(id="B64_CHARS", ctx=ast.Load())), model.fold(pb, ast.Name(id="HASH64_CHARS", ctx=ast.Load()))
@@ -303,7 +304,7 @@ def rule_d(model, rep, table):
     rep.check(d == 5000 and has_stmt(pf, "rounds = 5000"), R, site(LS, "_ShaHasher._DEFAULT_ROUNDS"), f"{d} vs passlib implicit 5000", "the implicit sha-crypt cost is 5000 on both sides",
               witness="'$5$salt$digest' strings (passlib's rendering of 5000 implicit rounds) verify under one API only")
     rep.check(has_stmt(hf, "salt = as_str(salt) if salt is not None else _gen_salt(16)"), R, site(LS, "_ShaHasher.hash"), "caller salt or 16 generated characters", "salt: the caller's, else 16 generated characters (passlib's maximum)")
-    t = ast.unparse(hf)
+    t = qtext(hf)
     rep.check("self._info_cls(rounds=self._rounds, salt=salt, hash=as_str(sha)).as_str()" in t, R, site(LS, "_ShaHasher.hash"), "record built from the values that were hashed", "the rendered record carries the rounds and salt the digest was computed with")
     rep.check(returns(vf)[-1:] == ["hmac.compare_digest(info.hash, hashed)"], R, site(LS, "_ShaHasher.verify"), "; ".join(returns(vf)), "whole digests compared in constant time")
     gs = model.func(LS, "_gen_salt")
@@ -316,9 +317,9 @@ def rule_d(model, rep, table):
               f"pbkdf2_hmac({call and [ast.unparse(a) for a in call.args]}, {hk})", "pbkdf2: digest by slot, password/salt/iterations from the arguments, default output length (= digest size)",
               witness="pbkdf2 hashes of one API do not verify under the other (other digest, truncated key)")
     rep.check(has_stmt(hf, "secret = as_bytes(secret)") and has_stmt(hf, "salt = salt or self._salt()") and has_stmt(hf, "rounds = rounds or self._rounds"), R, site(LP, "PBKDF2SHAHandler.hash"), "argument defaults", "pbkdf2: explicit salt/rounds win over configured ones")
-    rep.check("self.HASH_INFO_CLS(rounds=rounds, hash=ab64_encode(hash).decode('ascii'), salt=ab64_encode(salt).decode('ascii')).as_str()" in ast.unparse(hf), R, site(LP, "PBKDF2SHAHandler.hash"), "record from the values hashed",
+    rep.check("self.HASH_INFO_CLS(rounds=rounds, hash=ab64_encode(hash).decode('ascii'), salt=ab64_encode(salt).decode('ascii')).as_str()" in qtext(hf), R, site(LP, "PBKDF2SHAHandler.hash"), "record from the values hashed",
               "pbkdf2: rendered rounds/salt/digest are the ones used, in adapted base64")
-    rep.check("new_hash = self.hash(secret=secret, salt=ab64_decode(hash_info.salt), rounds=hash_info.rounds)" in ast.unparse(vf) and returns(vf)[-1:] == ["hmac.compare_digest(hash, new_hash)"], R, site(LP, "PBKDF2SHAHandler.verify"),
+    rep.check("new_hash = self.hash(secret=secret, salt=ab64_decode(hash_info.salt), rounds=hash_info.rounds)" in qtext(vf) and returns(vf)[-1:] == ["hmac.compare_digest(hash, new_hash)"], R, site(LP, "PBKDF2SHAHandler.verify"),
               "recompute with the record's salt and rounds; constant-time compare of whole strings", "pbkdf2 verify(): re-hash with the salt and rounds in the string, compare whole strings in constant time")
     for cn, hname, pname in (("PBKDF2SHA256Handler", "sha256", "pbkdf2_sha256"), ("PBKDF2SHA512Handler", "sha512", "pbkdf2_sha512")):
         mem = model.class_members((LP, cn))
@@ -353,7 +354,7 @@ def rule_e(model, rep):
               has_stmt(hf, "salt = salt or bcrypt.gensalt(rounds=self._rounds, prefix=self.prefixes[0])"), R, site(LB, "BcryptSHA256Hasher.hash"), "key = 22-character salt text of the bcrypt salt string",
               "libpass hash(): HMAC key is the salt text after the last '$' of the bcrypt salt string; bcrypt runs over the prepared secret with that salt")
     vf = model.func(LB, "BcryptSHA256Hasher.verify")
-    rep.check("bcrypt.checkpw(password=self._prepare_secret(secret, info.salt), hashed_password=hashed_password)" in ast.unparse(vf), R, site(LB, "BcryptSHA256Hasher.verify"), "key = record salt", "libpass verify(): HMAC key is the salt text of the record")
+    rep.check("bcrypt.checkpw(password=self._prepare_secret(secret, info.salt), hashed_password=hashed_password)" in qtext(vf), R, site(LB, "BcryptSHA256Hasher.verify"), "key = record salt", "libpass verify(): HMAC key is the salt text of the record")
     # passlib bcrypt: salt is kept as the 22-character text
     rep.check(model.class_const((H + "bcrypt", "bcrypt_sha256"), "max_salt_size") == 22, R, site(H + "bcrypt", "bcrypt_sha256.max_salt_size"), "22", "salt text is 22 characters on both sides")
     rep.minimum(R, 6)
